@@ -31,5 +31,12 @@ func vh_C02_reqserver_one_reply() {
 	if b[4] != sshFxpVersion {
 		vAssert(vRespID(b) == pkt.id(), kn+": reply carries the request id")
 	}
+	// the next request can be served: whatever the outcome, the handle table is
+	// not left locked (added after seeded change C02-f; a leaked lock shows up
+	// as a deadlock here)
+	rs.mu.Lock()
+	rs.mu.Unlock()
+	r2, err2 := vRSStep(rs, &sshFxpClosePacket{ID: pkt.id() + 1, Handle: "7"})
+	vAssert(err2 == nil && vRespID(vRespBytes(r2)) == pkt.id()+1, "a following request is answered too")
 	vEmit("typ", int(b[4]))
 }
